@@ -238,7 +238,40 @@ def emit_ua(w, src, must):
     w("")
 
 
-SECTIONS = [("codes", emit_codes), ("timers", emit_timers), ("guards", emit_guards), ("stun", emit_stun), ("sdp", emit_sdp), ("sip", emit_sip), ("auth", emit_auth), ("ua", emit_ua)]
+def emit_tsxforms(w, src, must):
+    """order of the steps of the client transactions' send (C04 / C07)"""
+    before, after = [], []
+    for f in ("client", "client_inv"):
+        t = src("crates/sip-core/src/transaction/%s.rs" % f)
+        m = re.search(r"async fn send\b", t)
+        body = t[m.start():] if m else ""
+        body = body[:body.index("\n    }\n")] if "\n    }\n" in body else body
+        reg = body.find("TsxRegistration::create(")
+        snd = body.find("send_outgoing_request(")
+        if reg >= 0 and snd >= 0:
+            (before if reg < snd else after).append(f)
+    w("(* ClientTsx::send and ClientInvTsx::send enter the transaction into the table before the request is handed to the transport *)")
+    flag(w, "tsx_client_registers_before_send", len(before) == 2, len(after) > 0, "order of registration and first send in the client transactions")
+    w("")
+
+
+def emit_streamforms(w, src, must):
+    """polling order of the receive task of an unreferenced connection (C15)"""
+    t = src("crates/sip-core/src/transport/streaming/mod.rs")
+    rt = t[t.index("async fn receive_task"):] if "async fn receive_task" in t else ""
+    m = re.search(r"ReceiveTaskState::Unused\((\w+), (\w+)\) =>", rt)
+    frame = timer = -1
+    if m:
+        arm = rt[m.end():]
+        frame = arm.find("framed.next()")
+        tm = re.search(r"_ = (&mut )?%s\b[^=]*=>" % re.escape(m.group(1)), arm)
+        timer = tm.start() if tm else -1
+    w("(* the receive task of an unreferenced connection polls the inbound frame before the 32 s idle timer (biased select, streaming/mod.rs) *)")
+    flag(w, "stream_frame_before_idle_timer", 0 <= frame < timer, 0 <= timer < frame, "polling order of frame and idle timer in receive_task")
+    w("")
+
+
+SECTIONS = [("codes", emit_codes), ("timers", emit_timers), ("guards", emit_guards), ("stun", emit_stun), ("sdp", emit_sdp), ("sip", emit_sip), ("auth", emit_auth), ("ua", emit_ua), ("tsxforms", emit_tsxforms), ("streamforms", emit_streamforms)]
 
 # which properties' models read which section of Gen/Tables.v
 SECTION_USERS = {
@@ -251,4 +284,6 @@ SECTION_USERS = {
     "sip": ["C01"],
     "auth": ["C18"],
     "ua": ["C13"],
+    "tsxforms": ["C04", "C07"],
+    "streamforms": ["C15"],
 }
